@@ -264,6 +264,8 @@ def run_scenario(env, kind, scenario, scratch, bound, budget, viol, stats, only_
                 viol("task_crashed", "%s %s: task %d (%r) raised %r under schedule %r" % (kind, stats["scenario"], i, q, s.errors[i], chosen), w)
                 continue
             for field, detail in E.compare_outcomes(refs[i], s.results[i]):
+                if field in E.JSON_IMAGE_FIELDS:
+                    continue    # C04's listed finding, independent of the schedule
                 viol("evaluation_differs_from_solo_outcome." + field,
                      "%s %s: task %d evaluate(%r) under schedule %r: %s; trace tail %r" % (
                          kind, stats["scenario"], i, q, chosen, detail, s.trace[-8:]), w)
@@ -272,7 +274,7 @@ def run_scenario(env, kind, scenario, scratch, bound, budget, viol, stats, only_
             keys.update(E.prefixes_of(q))
             keys.update(E.link_queries_of(q))
         E.inspect_cache(env, s.cache, keys,
-                        lambda k, d, key: viol("quiescent_cache." + k, "%s %s after schedule %r: %s" % (kind, stats["scenario"], chosen, d), w), kind)
+                        lambda k, d, key: None if k in E.JSON_IMAGE_FIELDS else viol("quiescent_cache." + k, "%s %s after schedule %r: %s" % (kind, stats["scenario"], chosen, d), w), kind)
     stats["interleavings"].update(interleavings)
 
 
